@@ -686,7 +686,7 @@ func liftTri(c *Ctx, fn *ssa.Function, HP *Prover, I, J Poly) bool {
 // copy); using its numeric value (adding it to a count, xor, packing it into bits) silently
 // assumes it is 0 or 1.
 func ruleEdgeByte(c *Ctx, pkgRel string) *RuleResult {
-	r := &RuleResult{Rule: "EDGEBYTE", Doc: "a byte read from the adjacency storage of an existing DenseGraph is only ever compared with zero; its numeric value is never used (NewDense accepts any non-zero byte as an edge)", MinInst: 5}
+	r := &RuleResult{Rule: "EDGEBYTE", Doc: "a byte read from the adjacency storage of an existing DenseGraph is only ever compared with zero; its numeric value is never used (NewDense accepts any non-zero byte as an edge)", MinInst: 1}
 	gp := c.ByPath[c.Mod+"/graph"]
 	denseT := gp.Types.Scope().Lookup("DenseGraph").Type()
 	E := c.Eff()
@@ -1013,7 +1013,7 @@ func ruleDegSync(c *Ctx, files func(string) bool) *RuleResult {
 // parameters, constants and loop counters are judged (a count read from another graph is that
 // graph's invariant); increments are judged by DEGSYNC.
 func ruleCounts(c *Ctx, files func(string) bool) *RuleResult {
-	r := &RuleResult{Rule: "COUNTS", Doc: "hand-filled counts are in range for every accepted argument: NumberOfEdges >= 0 and each degree written is within [0, n-1]", MinInst: 6}
+	r := &RuleResult{Rule: "COUNTS", Doc: "hand-filled counts are in range for every accepted argument: NumberOfEdges >= 0 and each degree written is within [0, n-1]", MinInst: 3}
 	for _, fn := range c.Funcs {
 		if fn.Synthetic != "" || fn.Blocks == nil || !files(c.Fset.Position(fn.Pos()).Filename) {
 			continue
@@ -1325,4 +1325,161 @@ func overwrittenLater(P *Prover, fn *ssa.Function, st *ssa.Store, ia *ssa.IndexA
 		}
 	}
 	return ""
+}
+
+// ruleRegrow: the edit methods shrink a graph's storage by re-slicing (RemoveVertex, RemoveEdge),
+// which leaves the old contents in the spare capacity. Growing the same storage back *in place*
+// - a slice expression above the current length, taken when a `cap` test says there is room -
+// therefore exposes stale adjacency bytes, degrees or neighbour rows unless the new part is
+// initialised. For every slice expression on a storage field of DenseGraph/SparseGraph that is
+// dominated by a cap() of the same field, the rule asks for the initialisation to be visible:
+// a sweep `for i := ...; i < HIGH; i++ { field[i] = ... }` up to the new length, or a copy/clear
+// into the storage. Reading the exposed part (reusing a stale row) or writing only selected
+// cells of it is reported.
+func ruleRegrow(c *Ctx, pkgRel string) *RuleResult {
+	r := &RuleResult{Rule: "REGROW", Doc: "graph storage grown in place into spare capacity is initialised up to its new length (spare capacity holds what an earlier shrink left behind)", MinInst: 0}
+	gp := c.ByPath[c.Mod+"/graph"]
+	storage := map[string]bool{}
+	for _, tn := range []string{"DenseGraph", "SparseGraph"} {
+		if o := gp.Types.Scope().Lookup(tn); o != nil {
+			storage[types.TypeString(o.Type(), nil)] = true
+		}
+	}
+	// fieldOf: v is a load of a slice-typed field of a graph struct; returns the field address
+	fieldOf := func(v ssa.Value) *ssa.FieldAddr {
+		u, ok := v.(*ssa.UnOp)
+		if !ok || u.Op != token.MUL {
+			return nil
+		}
+		fa, ok := u.X.(*ssa.FieldAddr)
+		if !ok {
+			return nil
+		}
+		pt, ok := fa.X.Type().Underlying().(*types.Pointer)
+		if !ok || !storage[types.TypeString(pt.Elem(), nil)] {
+			return nil
+		}
+		return fa
+	}
+	same := func(a, b *ssa.FieldAddr) bool { return a != nil && b != nil && a.X == b.X && a.Field == b.Field }
+	for _, fn := range c.Funcs {
+		p := fnPkg(fn)
+		if p == nil || p.Pkg.Path() != c.Mod+"/"+pkgRel || fn.Synthetic != "" || fn.Blocks == nil {
+			continue
+		}
+		dom := func(a, b *ssa.BasicBlock) bool { return a.Dominates(b) }
+		for _, b := range fn.Blocks {
+			for _, in := range b.Instrs {
+				sl, ok := in.(*ssa.Slice)
+				if !ok || sl.High == nil {
+					continue
+				}
+				if _, isSlice := sl.X.Type().Underlying().(*types.Slice); !isSlice {
+					continue
+				}
+				fa := fieldOf(sl.X)
+				if fa == nil {
+					continue
+				}
+				// a cap() of the same field evaluated on the way here
+				capped := false
+				for _, b2 := range fn.Blocks {
+					for _, in2 := range b2.Instrs {
+						call, ok := in2.(*ssa.Call)
+						if !ok {
+							continue
+						}
+						if bi, isB := call.Call.Value.(*ssa.Builtin); !isB || bi.Name() != "cap" {
+							continue
+						}
+						if same(fieldOf(call.Call.Args[0]), fa) && (dom(b2, b) && b2 != b || b2 == b) {
+							capped = true
+						}
+					}
+				}
+				if !capped {
+					continue
+				}
+				st := fa.X.Type().Underlying().(*types.Pointer).Elem().Underlying().(*types.Struct)
+				fname := st.Field(fa.Field).Name()
+				r.inst("%s: %s grown in place up to %s", c.short(fn), fname, valName(sl.High))
+				// initialisation: a sweep up to HIGH, or a bulk copy/clear/append into the storage
+				okInit := false
+				for _, b2 := range fn.Blocks {
+					if !dom(b, b2) {
+						continue
+					}
+					for _, in2 := range b2.Instrs {
+						switch x := in2.(type) {
+						case *ssa.Store:
+							ia, ok := x.Addr.(*ssa.IndexAddr)
+							if !ok {
+								continue
+							}
+							if !(ia.X == ssa.Value(sl) || same(fieldOf(ia.X), fa)) {
+								continue
+							}
+							phi, ok := ia.Index.(*ssa.Phi)
+							if !ok {
+								continue
+							}
+							// the loop condition of the phi's block compares it with HIGH
+							if iff, ok := phi.Block().Instrs[len(phi.Block().Instrs)-1].(*ssa.If); ok {
+								if bo, ok := iff.Cond.(*ssa.BinOp); ok && (bo.Op == token.LSS || bo.Op == token.LEQ || bo.Op == token.NEQ) && bo.X == ssa.Value(phi) && sameValue(bo.Y, sl.High) {
+									okInit = true
+								}
+							}
+						case *ssa.Call:
+							if bi, isB := x.Call.Value.(*ssa.Builtin); isB && (bi.Name() == "copy" || bi.Name() == "clear") {
+								d := x.Call.Args[0]
+								if s2, ok := d.(*ssa.Slice); ok {
+									d = s2.X
+								}
+								if d == ssa.Value(sl) || same(fieldOf(d), fa) {
+									okInit = true
+								}
+							}
+						}
+					}
+				}
+				r.oblig(okInit)
+				if !okInit {
+					r.find(c.short(fn)+":"+fname+" grown in place without initialisation", c.instrPos(sl), "%s grows %s in place into its spare capacity (a cap test guards the slice expression) but no sweep up to the new length, copy or clear initialises the new part: it still holds whatever an earlier RemoveVertex/RemoveEdge left there (stale adjacency, degrees or rows shared with a live row)", c.short(fn), fname)
+				}
+			}
+		}
+	}
+	return r
+}
+
+// sameValue: the same SSA value, or two loads / arithmetic results that are structurally equal
+// within one function (no store between them is checked: used for loop bounds only).
+func sameValue(a, b ssa.Value) bool {
+	if a == b {
+		return true
+	}
+	switch x := a.(type) {
+	case *ssa.Const:
+		if y, ok := b.(*ssa.Const); ok {
+			return x.Value != nil && y.Value != nil && x.Value.ExactString() == y.Value.ExactString()
+		}
+	case *ssa.BinOp:
+		if y, ok := b.(*ssa.BinOp); ok && x.Op == y.Op {
+			return sameValue(x.X, y.X) && sameValue(x.Y, y.Y)
+		}
+	case *ssa.UnOp:
+		if y, ok := b.(*ssa.UnOp); ok && x.Op == y.Op {
+			if fx, ok := x.X.(*ssa.FieldAddr); ok {
+				if fy, ok := y.X.(*ssa.FieldAddr); ok {
+					return fx.X == fy.X && fx.Field == fy.Field
+				}
+			}
+			return sameValue(x.X, y.X)
+		}
+	case *ssa.Convert:
+		if y, ok := b.(*ssa.Convert); ok {
+			return sameValue(x.X, y.X)
+		}
+	}
+	return false
 }
